@@ -111,6 +111,23 @@ def run(env, tier, seed, broken=None):
         texts += [tail, 'y ' + tail, tail + '\n']
     mm, gd, acc = diff_front(env, texts)
     mism += mm
+    # large script files through the real process (main.go reads and decodes the file before the lexer sees it): mostly
+    # three-byte characters, three byte alignments, so that every power-of-two offset up to the file size falls
+    # inside a character in at least one of them
+    big = []
+    for pad in (0, 1, 2):
+        lines = ['// ' + 'x' * pad]
+        for i in range(700 if tier == 'quick' else 3000):
+            lines.append('%s "%s %d";' % (lang.PRINT, 'বাংলা লেখা ' * 3, i) if i % 50 == 0 else '%s ক%d = "%s";' % (lang.VAR, i, 'অআইঈউঊ' * 5))
+        lines.append('%s ক%d;' % (lang.PRINT, 7))
+        big.append({'id': 'big%d' % pad, 'src': '\n'.join(lines) + '\n', 'timeout_ms': 20000})
+    from props.common import diff_runs
+    mm3, ri3, rm3 = diff_runs(env, big, need_oracle=False, timeout_ms=20000)
+    mism += mm3
+    for c in big:
+        r = ri3[c['id']][0]
+        if r['status'] != 0 or r['stderr'] != b'':
+            mism.append({'case': dict(c, src=c['src'][:200] + '... (%d bytes)' % len(c['src'].encode())), 'reason': 'a valid %d-byte script was not accepted: status %s, stderr %r' % (len(c['src'].encode()), r['status'], r['stderr'][:120])})
     nontriv = set()
     for i, s in enumerate(texts):
         gg = gd.get('t%d' % i)
